@@ -4,36 +4,86 @@ import (
 	rt "github.com/apmckinlay/gsuneido/zzverifrt"
 )
 
-// ---- independent reference calendar (proleptic Gregorian), plain / and % ----
+// ---- independent reference calendar (proleptic Gregorian), plain / and %, years >= 0 ----
 
+// vdLeap: Gregorian leap year rule (branch-free).
 func vdLeap(y int) bool {
-	return y%4 == 0 && (y%100 != 0 || y%400 == 0)
+	return rt.And(y%4 == 0, rt.Or(y%100 != 0, y%400 == 0))
 }
 
-// vdMonthLen: days in month m (1..12) of year y
+// vdCum: days before the first of month m (1..12) in a non-leap year.
+func vdCum(m int) int {
+	return rt.IteInt(m <= 1, 0, rt.IteInt(m == 2, 31, rt.IteInt(m == 3, 59, rt.IteInt(m == 4, 90,
+		rt.IteInt(m == 5, 120, rt.IteInt(m == 6, 151, rt.IteInt(m == 7, 181, rt.IteInt(m == 8, 212,
+			rt.IteInt(m == 9, 243, rt.IteInt(m == 10, 273, rt.IteInt(m == 11, 304, 334)))))))))))
+}
+
+// vdMonthLen: days in month m (1..12) of year y.
 func vdMonthLen(y, m int) int {
-	if m == 2 {
-		if vdLeap(y) {
-			return 29
-		}
-		return 28
-	}
-	if m == 4 || m == 6 || m == 9 || m == 11 {
-		return 30
-	}
-	return 31
+	return rt.IteInt(m == 2, rt.IteInt(vdLeap(y), 29, 28),
+		rt.IteInt(rt.Or(rt.Or(m == 4, m == 6), rt.Or(m == 9, m == 11)), 30, 31))
 }
 
-//symgo:harness prop=C33 tier=quick arith=int solver=cvc5 timeout=200 qtimeout=20000 shards=4 bounds=probe
-func VerifC33Valid() {
-	c := rt.Pick("century", 31)
-	m := rt.Pick("month", 12) + 1
+// vdDays: day number of y-m-d counted from 0000-01-01 = 0 (d may lie outside the month:
+// the count simply continues). Leap years in [0,y) = ceil(y/4) - ceil(y/100) + ceil(y/400).
+func vdDays(y, m, d int) int {
+	return 365*y + (y+3)/4 - (y+99)/100 + (y+399)/400 +
+		vdCum(m) + rt.IteInt(rt.And(vdLeap(y), m > 2), 1, 0) + d - 1
+}
+
+// vdValid: the Gregorian dates gSuneido represents: years 0..2999, plus exactly 3000-01-01 00:00.
+func vdValid(y, m, d, h, mi, s, ms int) bool {
+	fields := rt.And(rt.And(rt.And(0 <= y, y <= 3000), rt.And(1 <= m, m <= 12)),
+		rt.And(rt.And(rt.And(0 <= h, h <= 23), rt.And(0 <= mi, mi <= 59)),
+			rt.And(rt.And(0 <= s, s <= 59), rt.And(0 <= ms, ms <= 999))))
+	dom := rt.And(1 <= d, d <= vdMonthLen(y, m))
+	end := rt.Or(y < 3000, rt.And(rt.And(m == 1, d == 1), rt.And(rt.And(h == 0, mi == 0), rt.And(s == 0, ms == 0))))
+	return rt.And(rt.And(fields, dom), end)
+}
+
+const vdMsPerDay = 86400000
+
+func vdTod(h, mi, s, ms int) int { return ((h*60+mi)*60+s)*1000 + ms }
+
+// vdPack: the documented representation (21 bits year, 4 month, 5 day / 10 hour, 6 min, 6 sec, 10 ms).
+func vdPack(y, m, d, h, mi, s, ms int) SuDate {
+	return SuDate{date: uint32(y*512 + m*32 + d), time: uint32(h*4194304 + mi*65536 + s*1024 + ms)}
+}
+
+// vdCentury: the centuries a harness case-splits over (quick: 1900s and 2000s).
+func vdCentury(name string) int {
+	if rt.Thorough() {
+		return rt.Pick(name, 30)
+	}
+	return 19 + rt.Pick(name, 2)
+}
+
+// C33: NewDate accepts exactly the Gregorian dates of the range, builds the documented
+// bit-packed representation, and the accessors return the fields.
+//
+//symgo:harness prop=C33 tier=quick arith=int timeout=300 ttimeout=1500 qtimeout=20000 shards=2 tshards=8 bounds=probe
+func VerifC33New() {
+	c := vdCentury("century")
+	m := rt.Pick("month", 14) // 0 and 13 are invalid months
 	yy := rt.IntRange("yy", 0, 99)
 	y := c*100 + yy
-	d := rt.IntRange("day", -2, 40)
-	ok := valid(y, m, d, 0, 0, 0, 0)
+	d := rt.IntRange("day", -1, 33)
+	h := rt.IntRange("hour", -1, 25)
+	mi := rt.IntRange("minute", -1, 61)
+	s := rt.IntRange("second", -1, 61)
+	ms := rt.IntRange("ms", -1, 1001)
+	x := NewDate(y, m, d, h, mi, s, ms)
 	rt.Reach("computed")
-	rt.Observe("ok", ok)
-	want := y <= 3000 && d >= 1 && d <= vdMonthLen(y, m) && (y < 3000 || (m == 1 && d == 1))
-	rt.Assert("valid/gregorian", ok == want)
+	isNil := x == NilDate
+	rt.Observe("nil", isNil)
+	want := vdValid(y, m, d, h, mi, s, ms)
+	rt.Assert("new/accepts-exactly-gregorian", isNil != want)
+	if !isNil {
+		rt.Reach("valid")
+		rt.Assert("new/representation", x == vdPack(y, m, d, h, mi, s, ms))
+		rt.Assert("new/accessors", rt.And(rt.And(rt.And(x.Year() == y, x.Month() == m), rt.And(x.Day() == d, x.Hour() == h)),
+			rt.And(rt.And(x.Minute() == mi, x.Second() == s), x.Millisecond() == ms)))
+		rt.Observe("date", x.date)
+		rt.Observe("time", x.time)
+	}
 }
